@@ -685,7 +685,7 @@ def run(chk, model_ok):
     for c in ref_cases:
         for pr in c["probes"]:
             pr.setdefault("coords", None)
-    for _ in range(0 if only not in ('', 'refs') else 75 if quick else 4800):
+    for _ in range(0 if only not in ('', 'refs') else 330 if quick else 4800):
         t = rand_tree(rng)
         probes = [rand_probe(rng, t, k) for k in range(rng.choice([6, 8, 10]))]
         ref_cases.append({"tree": t, "probes": probes})
@@ -788,7 +788,7 @@ def run(chk, model_ok):
     lap("refs-check")
     # ======================================================= 2. the reader's coordinate-variable search
     coord_cases = [dict(c) for c in CORPUS_COORD]
-    for _ in range(0 if only not in ('', 'coord') else 70 if quick else 3600):
+    for _ in range(0 if only not in ('', 'coord') else 300 if quick else 3600):
         coord_cases.append(coord_case(rng))
     for j, c in enumerate(coord_cases):
         c["i"] = j
@@ -846,7 +846,7 @@ def run(chk, model_ok):
     pool = ["x", "/x", "/g/x", "/g/h/x", "g/x", "/", "", "/g/", "//x", "/g//x", "x/", "/g/h/k/lat", "a__b", "/a/b__c"]
     for v in pool:
         name_cases.append({"op": "set", "value": v})
-    for _ in range(0 if only not in ('', 'names') else 120 if quick else 1800):
+    for _ in range(0 if only not in ('', 'names') else 300 if quick else 1800):
         name = rng.choice(["x", "/g/x", "/g/h/x", "lat", "/forecast/model/t", "/k/y"])
         groups = [rng.choice(GROUPS + ["forecast", "a/b", ""]) for _ in range(rng.choice([0, 1, 2, 3]))]
         name_cases.append({"op": rng.choice(["set_groups", "set_groups", "clear_groups", "dim_set_groups"]),
@@ -918,13 +918,13 @@ def run(chk, model_ok):
 
 def run_fields(chk, model_ok, rng, quick, scratch, bump, distinct, stats):
     cases = []
-    for _ in range(0 if os.environ.get('C11_ONLY', '') not in ('', 'fields') else 90 if quick else 4800):
+    for _ in range(0 if os.environ.get('C11_ONLY', '') not in ('', 'fields') else 400 if quick else 4800):
         spec = field_spec(rng)
         cases.append({"spec": spec})
     # corpus first: F11g (parametric vertical coordinate with bounds in a non-root group)
     ex_cases = [] if os.environ.get('C11_ONLY', '') not in ('', 'fields', 'examples') else [
         {"example": 1, "chain": ["g1", "g2", "g3"], "k": 2, "r0": 1, "seed": 520715}]
-    for _ in range(0 if os.environ.get('C11_ONLY', '') not in ('', 'fields', 'examples') else 16 if quick else 900):
+    for _ in range(0 if os.environ.get('C11_ONLY', '') not in ('', 'fields', 'examples') else 70 if quick else 900):
         ex_cases.append(example_case(rng))
     rows, crashed = run_family("fields", cases, scratch, nworkers=14)
     for rc, err in crashed:
